@@ -465,6 +465,7 @@ func TempFile(dir, pattern string, cfg repositoryPermissionFetcher) (*os.File, e
 		os.Remove(tmp.Name())
 		return nil, err
 	}
+	VerifPoint("tmp.create")
 	return tmp, nil
 }
 
